@@ -30,6 +30,7 @@ LEVEL_TEXT = (
 )
 LEVEL_NOTE = "Conformance is computed from the relation the diagram was generated from, so a parser defect shows up here as well; components are pairwise unrelated modules (parent-child diagrams are documented as unsupported)."
 LEVEL_TEXT += ' One DiagramRule object is also re-applied to conforming and violating architectures in turn. Additionally an end-to-end soak: random projects on disk are scanned with the real scanner (externals kept or dropped, external exclusions, level limits, module_path below the root) and module rules, layer rules, diagram rules and plots are interleaved on those architectures with every monitor armed.'
+LEVEL_TEXT += " Dotted components that start with the base module's own name are included."
 RULE = "an evaluation = one DiagramRule.assert_applies judged by the monitor; non-trivial = diagram with >= 1 arrow on a non-empty import relation; distinct = distinct (diagram, graph, mode, naming) tuples"
 ASSUMPTIONS = ["R-RULE gives the report of each generated rule (single named subject, named objects: no ambiguity)"]
 SHARD_TIMEOUT = {"quick": 900, "thorough": 3000}
